@@ -267,6 +267,10 @@ def _decl_check(c):
     cmds = [Node(c['id0'], 'a'), Node(c['id1'], 'b'), Node(c['id2'], 'x')]
     if c['leaf1']:
         cmds[1] = Node(c['id1'])       # a top-level leaf (e.g. a comment)
+    if c.get('nest0'):
+        # a top-level s-expression without leaf children, e.g. what
+        # ReplaceByChild leaves of (assert ((_ extract 7 0) x))
+        cmds[0] = Node(Node(c['id0'], 'a'), Node(Node('k')))
     cmds = cmds[:c['n']]
     target = cmds[-1]
     var = Node('declare-const', 'fresh', 'Int')
@@ -294,9 +298,12 @@ def _decl_check(c):
 
 
 def make_decl():
-    def h(id0: str, id1: str, id2: str, n: int, leaf1: bool, change: bool):
+    def h(id0: str, id1: str, id2: str, n: int, leaf1: bool, change: bool,
+          nest0: bool):
         c = dict(locals())
         assume(1 <= n <= 3)
+        if nest0:
+            assume(n >= 2)        # the nested command is not the target
         for x in (id0, id1, id2):
             assume(len(x) <= 16)
         if n < 3:
